@@ -842,3 +842,45 @@ def errloc_case(arg: dict) -> dict:
     locs = [{"file": m.group(1), "line": int(m.group(2)), "col": int(m.group(3)) if m.group(3) is not None else -999}
             for m in re.finditer(r"([A-Za-z0-9_./-]+\.s):(\d+)(?::(-?\d+))?", err)]
     return {"ok": o["ok"], "locs": locs, "has_text": arg["text"].strip() in err, "err": err}
+
+
+# ------------------------------------------------------------------------------------------
+# scanner token streams (conformance with spec/Scanner.tla, diagnostic)
+# ------------------------------------------------------------------------------------------
+def scan_tokens(arg: dict) -> dict:
+    from a816.parse.errors import ScannerException
+    from a816.parse.scanner import Scanner
+    from a816.parse.scanner_states import lex_initial
+    text = arg["text"]
+    budget = 200 * (len(text) + 2) ** 2 + 2000
+
+    class CScanner(Scanner):
+        ops = 0
+
+        def _tick(self):
+            self.ops += 1
+            if self.ops > budget:
+                raise BudgetExceeded()
+
+        def next(self):
+            self._tick()
+            return super().next()
+
+        def peek(self, k=0):
+            self._tick()
+            return super().peek(k)
+
+        def accept_prefix(self, prefix):
+            self._tick()
+            return super().accept_prefix(prefix)
+
+    sc = CScanner(lex_initial)
+    out = {"toks": [], "err": {"is": False, "line": 0, "col": 0, "msg": ""}, "budget_hit": False}
+    try:
+        toks = sc.scan("t.s", text)
+        out["toks"] = [[t.type.name, ["<nul>" if c == "\0" else c for c in t.value], t.position.line, t.position.column] for t in toks]
+    except BudgetExceeded:
+        out["budget_hit"] = True
+    except ScannerException as e:
+        out["err"] = {"is": True, "line": e.position.line, "col": e.position.column, "msg": str(e)}
+    return out
